@@ -5,6 +5,7 @@ import (
 	"errors"
 	"fmt"
 	"io"
+	"net"
 	"net/http"
 	"sort"
 	"strconv"
@@ -549,6 +550,9 @@ var cutConds = []cutCond{
 	{"eof", io.EOF},
 	{"unexpected-eof", io.ErrUnexpectedEOF},
 	{"conn-reset", errors.New("read tcp 10.0.0.1:443: connection reset by peer")},
+	// a transport error that has io.EOF in its chain (a wrapped body, a
+	// non-net/http transport): only io.EOF itself is the end of a stream
+	{"error-wrapping-eof", &net.OpError{Op: "read", Net: "tcp", Err: io.EOF}},
 	{"rst-cancel", errors.New("stream error: stream ID 1; CANCEL; received from peer")},
 	{"rst-internal", errors.New("stream error: stream ID 1; INTERNAL_ERROR; received from peer")},
 }
@@ -728,7 +732,7 @@ func directC04(tt *testing.T, tape *core.Tape, tier string, r *RunResult) {
 		return false
 	}
 	for _, k := range offs {
-		for _, cond := range cutConds[:3] {
+		for _, cond := range cutConds[:4] {
 			clean := cond.err == io.EOF
 			full := k == len(rec.reqBody)
 			if full && clean {
